@@ -26,6 +26,9 @@ Lemma expected_guards :
      ("ws.webSocket.closeC", Content, "ws.webSocket.mutex");
      ("ws.webSocket.forceCloseC", Content, "ws.webSocket.mutex");
      ("ws.client.webSocket", Ptr, "ws.client.wsMutex");
+     ("ws.client.errC", Content, "ws.client.errMutex");
+     ("ws.server.errC", Content, "ws.server.errMutex");
+     ("ocpp1.6.chargePoint.errC", Content, "ocpp1.6.chargePoint.errMutex");
      ("ws.server.addr", Ptr, "ws.server.addrMutex");
      ("ws.server.connections", Ptr, "ws.server.connMutex");
      ("ws.server.connections", Content, "ws.server.connMutex");
